@@ -130,6 +130,11 @@ class CHECK(vlib.Check):
                 stream = "random"
             seed = "-" if i % 10 == 0 else str(rng.randint(1, 10 ** 9))
             out.append((stream, "p=%d,n=%d,seed=%s,sch=|%s" % (rng.randint(0, 1), n, seed, interleave(rng, progs))))
+        # pool race: decisions also at the WaitCondition pool's mutex (oracles only; the model covers it with the LEnv label)
+        for i in range(150 if tier == "quick" else 1500):
+            n = rng.choice([2, 3, 3, 4])
+            progs = [balanced_prog(rng, rng.choice([1, 2, 2, 3])) for _ in range(n)]
+            out.append(("poolrace", "p=%d,n=%d,pm=1,seed=%d,sch=|%s" % (rng.randint(0, 1), n, rng.randint(1, 10 ** 9), interleave(rng, progs))))
         reps = 6 if tier == "quick" else 30
         for (n, body) in DIRECTED:
             for pref in (0, 1):
